@@ -13,6 +13,7 @@ use easy_ml::matrices::views::{
 };
 use easy_ml::matrices::Matrix;
 use easy_ml::tensors::indexing::{TensorAccess, TensorTranspose};
+use easy_ml::tensors::views::TensorView;
 use easy_ml::tensors::Tensor;
 
 const SENTINEL: u64 = 999_999_999;
@@ -115,6 +116,192 @@ fn changed(before: &[u64], after: &[u64]) -> String {
     }
 }
 
+
+// ---------------------------------------------------------------------------------------------
+// consumers of a view (producer → consumer): operators, iterator flavours, Display, the tensor
+// side, determinant — over the same stack rebuilt with `i64` elements
+// ---------------------------------------------------------------------------------------------
+
+type IDyn = Box<dyn MatrixMut<i64>>;
+
+fn show_ints(v: &[i64]) -> String {
+    if v.is_empty() {
+        "-".into()
+    } else {
+        v.iter().map(|x| x.to_string()).collect::<Vec<_>>().join(",")
+    }
+}
+
+fn show_grid(m: &Matrix<i64>) -> String {
+    let v: Vec<i64> = m.row_major_iter().collect();
+    format!("{}x{}:{}", m.rows(), m.columns(), show_ints(&v))
+}
+
+fn consume(v: &mut IDyn, kind: &str, via: &str) -> String {
+    let (rows, cols) = (v.view_rows(), v.view_columns());
+    let copy: Matrix<i64> = MatrixView::from(&*v).map(|x| x);
+    let place = |pairs: Vec<((usize, usize), i64)>| -> Vec<i64> {
+        let mut rm = vec![i64::MIN; rows * cols];
+        for ((r, c), x) in pairs {
+            assert!(r < rows && c < cols, "iterator index outside the view");
+            rm[r * cols + c] = x;
+        }
+        rm
+    };
+    match kind {
+        "add" => show_grid(&match via {
+            "view_matrix" => &MatrixView::from(&*v) + &copy,
+            "matrix_view" => &copy + &MatrixView::from(&*v),
+            "owned" => MatrixView::from(&*v) + MatrixView::from(&*v),
+            "owned_ref" => MatrixView::from(&*v) + &MatrixView::from(&copy),
+            _ => &MatrixView::from(&*v) + &MatrixView::from(&*v),
+        }),
+        "sub" => {
+            let index = Matrix::from_flat_row_major((rows, cols), (0..(rows * cols) as i64).collect());
+            show_grid(&match via {
+                "view_matrix" => &MatrixView::from(&*v) - &index,
+                "matrix_view" => -(&index - &MatrixView::from(&*v)),
+                "owned" => MatrixView::from(&*v) - MatrixView::from(&index),
+                _ => &MatrixView::from(&*v) - &MatrixView::from(&index),
+            })
+        }
+        "mul" => {
+            let t = copy.transpose();
+            show_grid(&match via {
+                "view_matrix" => &MatrixView::from(&*v) * &t,
+                "owned" => MatrixView::from(&*v) * MatrixView::from(&t),
+                _ => &MatrixView::from(&*v) * &MatrixView::from(&t),
+            })
+        }
+        "tmul" => {
+            let t = copy.transpose();
+            show_grid(&match via {
+                "matrix_view" => &t * &MatrixView::from(&*v),
+                "owned" => MatrixView::from(&t) * MatrixView::from(&*v),
+                _ => &MatrixView::from(&t) * &MatrixView::from(&*v),
+            })
+        }
+        "neg" => show_grid(&match via {
+            "owned" => -MatrixView::from(&*v),
+            _ => -&MatrixView::from(&*v),
+        }),
+        "scalar" => {
+            let three = 3i64;
+            let m = match via {
+                "ref_val" => &MatrixView::from(&*v) * 3,
+                "val_ref" => MatrixView::from(&*v) * &three,
+                "val_val" => MatrixView::from(&*v) * 3,
+                _ => &MatrixView::from(&*v) * &three,
+            };
+            show_grid(&(m + 1))
+        }
+        "diag" => {
+            let d: Vec<i64> = match via {
+                "reference" => MatrixView::from(&*v).diagonal_reference_iter().copied().collect(),
+                "reference_mut" => MatrixView::from(&mut *v).diagonal_reference_mut_iter().map(|x| *x).collect(),
+                _ => MatrixView::from(&*v).diagonal_iter().collect(),
+            };
+            format!("{}:{}", d.len(), show_ints(&d))
+        }
+        "det" => {
+            let d: Option<i64> = match via {
+                "map" => easy_ml::linear_algebra::determinant::<i64>(&copy),
+                "tensor_method" => TensorView::from(TensorRefMatrix::from(&*v).ok().expect("non-empty")).determinant(),
+                _ => easy_ml::linear_algebra::determinant_tensor::<i64, _, _>(TensorView::from(
+                    TensorRefMatrix::from(&*v).ok().expect("non-empty"),
+                )),
+            };
+            match d {
+                Some(x) => format!("some({})", x),
+                None => "none".into(),
+            }
+        }
+        "iter" => {
+            let out: Vec<i64> = match via {
+                "column_major_reference" => place(
+                    MatrixView::from(&*v).column_major_reference_iter().with_index().map(|(i, x)| (i, *x)).collect(),
+                ),
+                "column_major_with_index" => place(MatrixView::from(&*v).column_major_iter().with_index().collect()),
+                "with_index" => place(MatrixView::from(&*v).row_major_iter().with_index().collect()),
+                "reference_with_index" => place(
+                    MatrixView::from(&*v).row_major_reference_iter().with_index().map(|(i, x)| (i, *x)).collect(),
+                ),
+                "row_reference" => {
+                    let view = MatrixView::from(&*v);
+                    (0..rows).flat_map(|r| view.row_reference_iter(r).copied().collect::<Vec<_>>()).collect()
+                }
+                "column_reference" => {
+                    let view = MatrixView::from(&*v);
+                    let mut pairs = vec![];
+                    for c in 0..cols {
+                        for (r, x) in view.column_reference_iter(c).enumerate() {
+                            pairs.push(((r, c), *x));
+                        }
+                    }
+                    place(pairs)
+                }
+                "reference_mut" => MatrixView::from(&mut *v).row_major_reference_mut_iter().map(|x| *x).collect(),
+                "reference_mut_with_index" => place(
+                    MatrixView::from(&mut *v).row_major_reference_mut_iter().with_index().map(|(i, x)| (i, *x)).collect(),
+                ),
+                "column_major_reference_mut" => place(
+                    MatrixView::from(&mut *v)
+                        .column_major_reference_mut_iter()
+                        .with_index()
+                        .map(|(i, x)| (i, *x))
+                        .collect(),
+                ),
+                "row_reference_mut" => {
+                    let mut view = MatrixView::from(&mut *v);
+                    let mut out = vec![];
+                    for r in 0..rows {
+                        out.extend(view.row_reference_mut_iter(r).map(|x| *x));
+                    }
+                    out
+                }
+                "column_reference_mut" => {
+                    let mut view = MatrixView::from(&mut *v);
+                    let mut pairs = vec![];
+                    for c in 0..cols {
+                        for (r, x) in view.column_reference_mut_iter(c).enumerate() {
+                            pairs.push(((r, c), *x));
+                        }
+                    }
+                    place(pairs)
+                }
+                "display_view" => format!("{}", MatrixView::from(&*v))
+                    .replace(['[', ']'], " ")
+                    .split([',', '\n'])
+                    .map(|t| t.trim())
+                    .filter(|t| !t.is_empty())
+                    .map(|t| t.parse::<i64>().expect("number"))
+                    .collect(),
+                "tensor_iter" => TensorView::from(TensorRefMatrix::from(&*v).ok().expect("non-empty")).iter().collect(),
+                "tensor_index_by" => TensorView::from(TensorRefMatrix::from(&*v).ok().expect("non-empty"))
+                    .index_by(["row", "column"])
+                    .iter()
+                    .collect(),
+                "tensor_map" => TensorView::from(TensorRefMatrix::from(&*v).ok().expect("non-empty"))
+                    .map(|x| x)
+                    .iter()
+                    .collect(),
+                "tensor_transposed" => {
+                    // the tensor side's own transposition, read back in (column, row) order
+                    let t = TensorView::from(TensorRefMatrix::from(&*v).ok().expect("non-empty"))
+                        .transpose(["column", "row"]);
+                    let mut pairs = vec![];
+                    for (k, x) in t.iter().enumerate() {
+                        pairs.push(((k % rows, k / rows), x));
+                    }
+                    place(pairs)
+                }
+                _ => MatrixView::from(&*v).row_major_iter().collect(),
+            };
+            format!("{}x{}:{}", rows, cols, show_ints(&out))
+        }
+        _ => "bad-op".into(),
+    }
+}
 
 // ---------------------------------------------------------------------------------------------
 // views whose source is changed after construction
@@ -412,7 +599,8 @@ enum LeafKind {
     RowMajor,
     /// a 2-dimensional tensor with the given shape seen as a matrix through `MatrixRefTensor`,
     /// directly or (swapped) through a `TensorAccess` in the order second name, first name
-    Tensor([(&'static str, usize); 2], bool),
+    /// third field: the tensor was transposed in place (`Tensor::transpose_mut`) after it was filled
+    Tensor([(&'static str, usize); 2], bool, bool),
     /// the `MatrixPart` at grid position (kr, kc) of `Matrix::partition(rp, cp)` of a row-major
     /// matrix of the leaf size (the matrix itself is leaked: the part borrows it)
     Part(&'static [usize], &'static [usize], usize, usize),
@@ -425,18 +613,28 @@ fn part_of<T: 'static>(m: &'static mut Matrix<T>, rp: &[usize], cp: &[usize], kr
     Box::new(part.source())
 }
 
-/// a column-major source: `MatrixRefTensor` over a `TensorAccess` in (row, column) order of a
-/// tensor stored in (column, row) order
-fn cm_leaf<T: 'static>(size: (usize, usize), data: Vec<T>) -> Box<dyn MatrixMut<T>> {
-    make_leaf(LeafKind::Tensor([("c", size.1), ("r", size.0)], true), size, data)
+/// the tensor a tensor-backed leaf is made of: filled in the given shape, then (producer →
+/// consumer) optionally transposed in place, which keeps the names and exchanges the lengths
+fn prepared_tensor<T: Clone + 'static>(shape: [(&'static str, usize); 2], data: Vec<T>, transposed: bool) -> Tensor<T, 2> {
+    let mut t = Tensor::from(shape, data);
+    if transposed {
+        t.transpose_mut([shape[1].0, shape[0].0]);
+    }
+    t
 }
 
-fn make_leaf<T: 'static>(kind: LeafKind, size: (usize, usize), data: Vec<T>) -> Box<dyn MatrixMut<T>> {
+/// a column-major source: `MatrixRefTensor` over a `TensorAccess` in (row, column) order of a
+/// tensor stored in (column, row) order
+fn cm_leaf<T: Clone + 'static>(size: (usize, usize), data: Vec<T>) -> Box<dyn MatrixMut<T>> {
+    make_leaf(LeafKind::Tensor([("c", size.1), ("r", size.0)], true, false), size, data)
+}
+
+fn make_leaf<T: Clone + 'static>(kind: LeafKind, size: (usize, usize), data: Vec<T>) -> Box<dyn MatrixMut<T>> {
     match kind {
         LeafKind::RowMajor => Box::new(Matrix::from_flat_row_major(size, data)),
-        LeafKind::Tensor(shape, false) => Box::new(MatrixRefTensor::from(Tensor::from(shape, data))),
-        LeafKind::Tensor(shape, true) => {
-            let t = Tensor::from(shape, data);
+        LeafKind::Tensor(shape, false, tr) => Box::new(MatrixRefTensor::from(prepared_tensor(shape, data, tr))),
+        LeafKind::Tensor(shape, true, tr) => {
+            let t = prepared_tensor(shape, data, tr);
             Box::new(MatrixRefTensor::from(TensorAccess::from(t, [shape[1].0, shape[0].0])))
         }
         LeafKind::Part(rp, cp, kr, kc) => {
@@ -823,28 +1021,31 @@ impl Runner {
                         let shape = parse_shape(toks[2]);
                         let tshape = [shape[0], shape[1]];
                         let swapped = opt_arg("order", toks) == Some("swapped");
+                        let transposed = opt_arg("prep", toks) == Some("transpose_mut");
                         let (l1, l2) = (tshape[0].1, tshape[1].1);
-                        self.leaf = if swapped { (l2, l1) } else { (l1, l2) };
-                        self.leaf_kind = LeafKind::Tensor(tshape, swapped);
+                        // the lengths of the tensor as the views see it
+                        let (t1, t2) = if transposed { (l2, l1) } else { (l1, l2) };
+                        self.leaf = if swapped { (t2, t1) } else { (t1, t2) };
+                        self.leaf_kind = LeafKind::Tensor(tshape, swapped, transposed);
                         let data = fill_data(&self.fill, l1 * l2);
                         let res = catch(|| -> MDyn {
                             match via.as_str() {
                                 // tensor → matrix conversions (row-major order is kept)
-                                "into_matrix" if !swapped => Box::new(Tensor::from(tshape, data).into_matrix()),
+                                "into_matrix" if !swapped => Box::new(prepared_tensor(tshape, data, transposed).into_matrix()),
                                 "matrix_from" if !swapped => {
-                                    let m: Matrix<u64> = Tensor::from(tshape, data).into();
+                                    let m: Matrix<u64> = prepared_tensor(tshape, data, transposed).into();
                                     Box::new(m)
                                 }
                                 // matrix → tensor conversion, then the wrapper
-                                "from_matrix" if !swapped => Box::new(MatrixRefTensor::from(
+                                "from_matrix" if !swapped && !transposed => Box::new(MatrixRefTensor::from(
                                     Matrix::from_flat_row_major((l1, l2), data)
                                         .into_tensor(tshape[0].0, tshape[1].0)
                                         .expect("distinct names"),
                                 )),
                                 "index_by" if swapped => Box::new(MatrixRefTensor::from(
-                                    Tensor::from(tshape, data).index_by_owned([tshape[1].0, tshape[0].0]),
+                                    prepared_tensor(tshape, data, transposed).index_by_owned([tshape[1].0, tshape[0].0]),
                                 )),
-                                _ => make_leaf(LeafKind::Tensor(tshape, swapped), (0, 0), data),
+                                _ => make_leaf(LeafKind::Tensor(tshape, swapped, transposed), (0, 0), data),
                             }
                         });
                         return answer(res, |m| {
@@ -858,9 +1059,40 @@ impl Runner {
                     let data = fill_data(&self.fill, r * c);
                     if toks[1] == "matrix" {
                         self.leaf_kind = LeafKind::RowMajor;
-                        self.cur = Some(Cur::Leaf(Matrix::from_flat_row_major((r, c), data)));
+                        // producer → consumer: the same matrix out of a Vec with spare capacity, or
+                        // left behind by a removal (its Vec then has spare capacity too)
+                        let m = match via.as_str() {
+                            "spare" => {
+                                let mut v = Vec::with_capacity(data.len() + 1 + (r * c) % 5);
+                                v.extend(data);
+                                Matrix::from_flat_row_major((r, c), v)
+                            }
+                            "after_remove_row" => {
+                                let at = r / 2;
+                                let mut v: Vec<u64> = data[..at * c].to_vec();
+                                v.extend(std::iter::repeat(SENTINEL).take(c));
+                                v.extend(&data[at * c..]);
+                                let mut m = Matrix::from_flat_row_major((r + 1, c), v);
+                                m.remove_row(at);
+                                m
+                            }
+                            "after_remove_column" => {
+                                let at = c / 2;
+                                let mut v = Vec::with_capacity((c + 1) * r);
+                                for i in 0..r {
+                                    v.extend(&data[i * c..i * c + at]);
+                                    v.push(SENTINEL);
+                                    v.extend(&data[i * c + at..(i + 1) * c]);
+                                }
+                                let mut m = Matrix::from_flat_row_major((r, c + 1), v);
+                                m.remove_column(at);
+                                m
+                            }
+                            _ => Matrix::from_flat_row_major((r, c), data),
+                        };
+                        self.cur = Some(Cur::Leaf(m));
                     } else {
-                        self.leaf_kind = LeafKind::Tensor([("c", c), ("r", r)], true);
+                        self.leaf_kind = LeafKind::Tensor([("c", c), ("r", r)], true, false);
                         self.cur = Some(Cur::Mut(cm_leaf((r, c), data)));
                     }
                     format!("ok size={}x{}", r, c)
@@ -1133,7 +1365,7 @@ impl Runner {
                 let n = self.leaf.0 * self.leaf.1;
                 // the leaf is leaked for the life of the view and read back afterwards
                 let mptr: *mut Matrix<u64> = std::ptr::null_mut();
-                let before = fill_data(&self.fill, n);
+                let mut before = fill_data(&self.fill, n);
                 let (leaf, read_back): (MDyn, Box<dyn FnOnce() -> Vec<u64>>) = match self.leaf_kind {
                     LeafKind::RowMajor => {
                         let ptr: *mut Matrix<u64> =
@@ -1145,8 +1377,11 @@ impl Runner {
                             v
                         }))
                     }
-                    LeafKind::Tensor(shape, swapped) => {
-                        let ptr: *mut Tensor<u64, 2> = Box::into_raw(Box::new(Tensor::from(shape, before.clone())));
+                    LeafKind::Tensor(shape, swapped, transposed) => {
+                        let ptr: *mut Tensor<u64, 2> =
+                            Box::into_raw(Box::new(prepared_tensor(shape, before.clone(), transposed)));
+                        // the data as stored after the preparation
+                        before = unsafe { (*ptr).iter().collect() };
                         let t: &'static mut Tensor<u64, 2> = unsafe { &mut *ptr };
                         let leaf: MDyn = if swapped {
                             Box::new(MatrixRefTensor::from(TensorAccess::from(t, [shape[1].0, shape[0].0])))
@@ -1210,6 +1445,19 @@ impl Runner {
                 // the view is gone (dropped or unwound): read the leaf back and free it
                 let after = read_back();
                 answer(res, |_| changed(&before, &after))
+            }
+            "consume" => {
+                if self.cur.is_none() {
+                    return "no-view".into();
+                }
+                let (leaf, kind, fill, ops) = (self.leaf, self.leaf_kind, self.fill.clone(), self.ops.clone());
+                let what = toks[1].to_string();
+                let res = catch(move || {
+                    let data: Vec<i64> = fill_data(&fill, leaf.0 * leaf.1).into_iter().map(|x| x as i64).collect();
+                    let mut v: IDyn = build(make_leaf(kind, leaf, data), &ops);
+                    consume(&mut v, &what, &via)
+                });
+                answer(res, |s| s)
             }
             "partget" => {
                 let k: usize = toks[1].parse().unwrap();
@@ -1581,38 +1829,49 @@ fn gen_nested(g: &mut Gen) {
     }
 }
 
+/// a `@ pmatrix` line over a rows × cols matrix: random accepted cuts and a (mostly non-empty)
+/// part; answers the line and the part's size
+fn part_line(g: &mut Gen, rows: usize, cols: usize) -> (String, usize, usize) {
+    let cuts = |g: &mut Gen, n: usize| -> Vec<usize> {
+        // an ascending list of distinct boundaries in 0..=n, at most 4 of them
+        let mut v: Vec<usize> = (0..=n).filter(|_| g.rng.chance(1, 3)).collect();
+        v.truncate(4);
+        v
+    };
+    let (rp, cp) = (cuts(g, rows), cuts(g, cols));
+    let mut rb = rp.clone();
+    rb.push(rows);
+    let mut cb = cp.clone();
+    cb.push(cols);
+    // mostly a non-empty part
+    let (mut kr, mut kc) = (0, 0);
+    for attempt in 0..4 {
+        kr = g.rng.below(rp.len() + 1);
+        kc = g.rng.below(cp.len() + 1);
+        let empty = rb[kr] == if kr == 0 { 0 } else { rb[kr - 1] } || cb[kc] == if kc == 0 { 0 } else { cb[kc - 1] };
+        if !empty || (attempt == 0 && g.rng.chance(1, 8)) {
+            break;
+        }
+    }
+    let pr = rb[kr] - if kr == 0 { 0 } else { rb[kr - 1] };
+    let pc = cb[kc] - if kc == 0 { 0 } else { cb[kc - 1] };
+    let (pr, pc) = if pr == 0 || pc == 0 { (0, 0) } else { (pr, pc) };
+    let fill = if g.rng.chance(1, 6) { *g.rng.pick(&["zero", "const", "parity"]) } else { "id" };
+    (
+        format!("@ pmatrix {} {} {} {} {} {} fill={}", rows, cols, show_usizes(&rp), show_usizes(&cp), kr, kc, fill),
+        pr,
+        pc,
+    )
+}
+
 /// compositions of views over one part of a partition (`@ pmatrix`)
 fn gen_part_views(g: &mut Gen) {
     let rounds = if g.thorough { 8000 } else { 320 };
     for round in 0..rounds {
         let large = round % 8 == 7;
         let (rows, cols) = if large { (g.rng.range(6, 10), g.rng.range(6, 10)) } else { (g.rng.range(1, 4), g.rng.range(1, 5)) };
-        let cuts = |g: &mut Gen, n: usize| -> Vec<usize> {
-            // an ascending list of distinct boundaries in 0..=n, at most 4 of them
-            let mut v: Vec<usize> = (0..=n).filter(|_| g.rng.chance(1, 3)).collect();
-            v.truncate(4);
-            v
-        };
-        let (rp, cp) = (cuts(g, rows), cuts(g, cols));
-        let mut rb = rp.clone();
-        rb.push(rows);
-        let mut cb = cp.clone();
-        cb.push(cols);
-        // mostly a non-empty part
-        let (mut kr, mut kc) = (0, 0);
-        for attempt in 0..4 {
-            kr = g.rng.below(rp.len() + 1);
-            kc = g.rng.below(cp.len() + 1);
-            let empty = rb[kr] == if kr == 0 { 0 } else { rb[kr - 1] } || cb[kc] == if kc == 0 { 0 } else { cb[kc - 1] };
-            if !empty || (attempt == 0 && g.rng.chance(1, 8)) {
-                break;
-            }
-        }
-        let pr = rb[kr] - if kr == 0 { 0 } else { rb[kr - 1] };
-        let pc = cb[kc] - if kc == 0 { 0 } else { cb[kc - 1] };
-        let (pr, pc) = if pr == 0 || pc == 0 { (0, 0) } else { (pr, pc) };
-        let fill = if g.rng.chance(1, 6) { *g.rng.pick(&["zero", "const", "parity"]) } else { "id" };
-        g.op(format!("@ pmatrix {} {} {} {} {} {} fill={}", rows, cols, show_usizes(&rp), show_usizes(&cp), kr, kc, fill));
+        let (line, pr, pc) = part_line(g, rows, cols);
+        g.op(line);
         g.count("part_view");
         g.count(if pr == 0 { "part_view.empty_part" } else if (pr, pc) == (rows, cols) { "part_view.whole_matrix" } else { "part_view.proper_part" });
         if large {
@@ -1667,6 +1926,155 @@ fn gen_swaps(g: &mut Gen) {
             g.count("mswap.large");
         }
         gen_queries(g, vr, vc, "mswap", !large && depth == 1);
+    }
+}
+
+/// a leaf of any kind for the producer → consumer sections: fresh / spare-capacity / post-removal
+/// matrices, column-major sources, tensors (also transposed in place after filling), parts;
+/// answers the line and the size of the view
+fn any_leaf_line(g: &mut Gen, rows: usize, cols: usize) -> (String, usize, usize) {
+    match g.rng.below(8) {
+        0 => (format!("@ matrix {} {}", rows, cols), rows, cols),
+        1 | 2 => {
+            let via = *g.rng.pick(&["spare", "after_remove_row", "after_remove_column"]);
+            g.count(&format!("leaf.matrix.{}", via));
+            (format!("@ matrix {} {} via={}", rows, cols, via), rows, cols)
+        }
+        3 => (format!("@ cmatrix {} {}", rows, cols), rows, cols),
+        4 | 5 => {
+            // a tensor with lengths l1, l2; transposed in place it has l2, l1
+            let transposed = g.rng.chance(2, 3);
+            let swapped = g.rng.chance(1, 3);
+            let (t1, t2) = if swapped { (cols, rows) } else { (rows, cols) };
+            let (l1, l2) = if transposed { (t2, t1) } else { (t1, t2) };
+            let via = if swapped {
+                *g.rng.pick(&["direct", "index_by"])
+            } else {
+                *g.rng.pick(&["direct", "into_matrix", "matrix_from"])
+            };
+            g.count(&format!("leaf.tensor.{}{}.{}", if transposed { "transpose_mut." } else { "" }, if swapped { "swapped" } else { "direct" }, via));
+            (
+                format!(
+                    "@ tmatrix x:{},y:{} order={}{} via={}",
+                    l1,
+                    l2,
+                    if swapped { "swapped" } else { "direct" },
+                    if transposed { " prep=transpose_mut" } else { "" },
+                    via
+                ),
+                rows,
+                cols,
+            )
+        }
+        _ => {
+            let (mr, mc) = (rows + g.rng.below(3), cols + g.rng.below(3));
+            let (line, pr, pc) = part_line(g, mr, mc);
+            g.count("leaf.part");
+            (line, pr, pc)
+        }
+    }
+}
+
+/// one random adaptor (range / reverse / tensor round trip / transposition through the tensor side)
+fn any_step(g: &mut Gen, vr: &mut usize, vc: &mut usize) -> &'static str {
+    if g.rng.chance(1, 4) {
+        let via = *g.rng.pick(&["access", "try_from", "transpose"]);
+        g.op(format!("mswap via={}", via));
+        if *vr != 0 && *vc != 0 {
+            std::mem::swap(vr, vc);
+        }
+        "swap"
+    } else if g.rng.chance(1, 2) {
+        // a range that keeps something, mostly
+        let pick = |g: &mut Gen, size: usize| -> (usize, usize) {
+            if size == 0 || g.rng.chance(1, 10) {
+                (g.rng.below(size + 2), g.rng.below(3))
+            } else {
+                let s = g.rng.below(size);
+                (s, if g.rng.chance(1, 4) { MAX } else { g.rng.range(1, size - s) })
+            }
+        };
+        let (r, c) = (pick(g, *vr), pick(g, *vc));
+        let via = range_via(g, r, c);
+        g.op(format!("mrange {}:{} {}:{} via={}", r.0, r.1, c.0, c.1, via));
+        *vr = clipped(r.0, r.1, *vr);
+        *vc = clipped(c.0, c.1, *vc);
+        "range"
+    } else {
+        gen_stack(g, vr, vc, 1).pop().unwrap_or("none")
+    }
+}
+
+const ITER_FLAVOURS: [&str; 17] = [
+    "row_major", "column_major_reference", "column_major_with_index", "with_index", "reference_with_index",
+    "row_reference", "column_reference", "reference_mut", "reference_mut_with_index", "column_major_reference_mut",
+    "row_reference_mut", "column_reference_mut", "display_view", "tensor_iter", "tensor_index_by", "tensor_map",
+    "tensor_transposed",
+];
+
+/// every consumer of a (non-empty) view of the given size
+fn gen_consume(g: &mut Gen, rows: usize, cols: usize, all_flavours: bool) {
+    if rows == 0 || cols == 0 {
+        return;
+    }
+    for f in ITER_FLAVOURS {
+        if all_flavours || g.rng.chance(1, 3) {
+            g.op(format!("consume iter via={}", f));
+            g.count(&format!("consume.iter.{}", f));
+        }
+    }
+    let kinds: [(&str, &[&str]); 7] = [
+        ("add", &["view_view", "view_matrix", "matrix_view", "owned", "owned_ref"]),
+        ("sub", &["view_view", "view_matrix", "matrix_view", "owned"]),
+        ("mul", &["view_view", "view_matrix", "owned"]),
+        ("tmul", &["view_view", "matrix_view", "owned"]),
+        ("neg", &["ref", "owned"]),
+        ("scalar", &["ref_ref", "ref_val", "val_ref", "val_val"]),
+        ("diag", &["iter", "reference", "reference_mut"]),
+    ];
+    for (kind, vias) in kinds {
+        let via = *g.rng.pick(vias);
+        g.op(format!("consume {} via={}", kind, via));
+        g.count(&format!("consume.{}.{}", kind, via));
+    }
+    if rows != cols || rows <= 4 {
+        let via = *g.rng.pick(&["tensor", "tensor_method", "map"]);
+        g.op(format!("consume det via={}", via));
+        g.count(if rows == cols { "consume.det.square" } else { "consume.det.non_square" });
+    }
+}
+
+/// producer → consumer: the objects other operations leave behind (tensors transposed in place,
+/// matrices with spare capacity, parts, transposed-through-tensor views, stacks of depth ≤ 3) fed
+/// to every reader of a view
+fn gen_producers_consumers(g: &mut Gen) {
+    let rounds = if g.thorough { 8000 } else { 330 };
+    for round in 0..rounds {
+        let large = round % 10 == 9;
+        let square = g.rng.chance(1, 3);
+        let (rows, cols) = if large {
+            (g.rng.range(6, 10), g.rng.range(6, 10))
+        } else {
+            let r = g.rng.range(1, 4);
+            (r, if square { r } else { g.rng.range(1, 5) })
+        };
+        let (line, mut vr, mut vc) = any_leaf_line(g, rows, cols);
+        g.op(line);
+        let depth = g.rng.below(4);
+        let mut kinds = vec![];
+        for _ in 0..depth {
+            kinds.push(any_step(g, &mut vr, &mut vc));
+        }
+        g.count(&format!("producer_consumer.depth={}", depth));
+        if depth > 0 {
+            g.count(&format!("producer_consumer.top={}", kinds[depth - 1]));
+        }
+        if vr == 0 || vc == 0 {
+            g.count("producer_consumer.empty_view");
+        }
+        // the view itself, then its consumers
+        gen_queries(g, vr, vc, "producer", depth == 0 && !large);
+        gen_consume(g, vr, vc, round % 5 == 0 && !large);
     }
 }
 
@@ -2111,5 +2519,6 @@ pub fn gen(g: &mut Gen) {
     gen_partitions(g);
     gen_part_views(g);
     gen_swaps(g);
+    gen_producers_consumers(g);
     let _ = bset(1);
 }
